@@ -89,6 +89,46 @@ def check_get_av(ctx):
         ctx.ok('ALG-9', 'invariant under scaling of chi', loc(g), 'get_av(c*chi) == get_av(chi): opacity units and normalisation cancel (follows from the formula: degree 0 in chi)')
         ctx.ok('ALG-9', 'exactly -0.4 at 0.55 micron', loc(g), 'numerator and denominator are the same interpolation term at 0.55 micron (follows from the formula)')
         ctx.ok('ALG-9', 'zero outside the table', loc(g), 'the opacity at the query is taken as zero below the first and above the last tabulated wavelength (follows from the formula)')
+    # nothing else is refused: every raise guarded by a test on the table is tried on tables that cover 0.55 micron (it on the first node, between nodes,
+    # on an interior node, on the last node); <= and < are kept apart for this
+    from .. import knots
+    Ig = Interp(repo)
+    Ig.exact_le = True
+    Ig.call(g, [symarr('qq', (Q,), unit=sym('unit:cm'))], selfv=mk())
+    v055 = Poly.const(Fraction(11, 20)) * U
+    inst_g = 'get_av accepts every table that covers 0.55 micron'
+    seen_g = 0
+    for gd in Ig.assumed:
+        if gd[4] != 'raise-guard' or len(gd) < 6 or not isinstance(gd[5], Arr) or any(d_ is not None for d_ in gd[5].dims) or gd[5].mask is not None:
+            continue
+        if not ({'xw', 'chi'} & {str(x_).split('@')[0] for x_ in alg.leaf_syms(gd[5].poly)[0]}) or 'qq' in alg.leaf_syms(gd[5].poly)[0]:
+            continue
+        seen_g += 1
+        pre = gd[5].poly if gd[3] else alg.b_not(gd[5].poly)
+        verdicts = []
+        for name_, kind_, k_ in knots.regions(3)[:-1]:
+            Rg = knots.Region(None, xw, T, 3, requests=[(v055, kind_, k_)])
+            try:
+                r_ = Rg.simplify(pre)
+                for _ in range(3):
+                    r2_ = alg.rebuild(r_, lambda a_: Poly.from_key(a_[2][2]) if a_[0] == 'fn' and a_[1] in ('any', 'all') and len(a_) == 3 and a_[2][0] == 'B' and Poly.from_key(a_[2][2]).is_const() else None)
+                    if r2_ == r_:
+                        break
+                    r_ = r2_
+            except (RecursionError, ZeroDivisionError):
+                r_ = None
+            verdicts.append((name_, r_))
+        txt = '%s (%s:%s)' % (gd[2] if not gd[3] else 'not (%s)' % gd[2], gd[0], gd[1])
+        refused = [n_ for n_, r_ in verdicts if r_ is not None and r_ == Poly()]
+        open_ = [n_ for n_, r_ in verdicts if r_ is None or not (r_ == Poly() or r_ == Poly.const(1))]
+        if refused:
+            ctx.violation('ALG-9', inst_g, loc(g), 'a table is refused when %s: with 0.55 micron %s the call raises although the table covers it' % (txt, refused[0]), 'table-refused')
+        elif open_:
+            ctx.undecided('ALG-9', inst_g, loc(g), 'a raise is guarded by %s, not decided with 0.55 micron %s' % (txt, open_[0]))
+        else:
+            ctx.ok('ALG-9', inst_g, loc(g), 'the raise guarded by %s refuses no table with 0.55 micron on a node or between nodes' % txt)
+    if not seen_g:
+        ctx.ok('ALG-9', inst_g, loc(g), 'no raise is guarded by a test on the table', nontrivial=False)
     # refusals
     for nm, arg in (('bare numbers', symarr('qq', (Q,), unit=num(1))), ('non-length quantity', symarr('qq', (Q,), unit=sym('unit:Hz')))):
         I2 = Interp(repo)
@@ -233,6 +273,7 @@ def check_state(ctx):
 
 EX = 'sedfitter/extinction/extinction.py'
 MUST_FIRE = [
+    ('coverage guard with non-strict inequalities: a table whose first or last node is 0.55 micron is refused', [(EX, '        if isinstance(wav, u.Quantity) and wav.unit.is_equivalent(u.m):\n', '        if isinstance(wav, u.Quantity) and wav.unit.is_equivalent(u.m):\n            wav_v = ([0.55] * u.micron).to(self.wav.unit)\n            if wav_v <= self.wav[0] or wav_v >= self.wav[-1]:\n                raise ValueError("extinction law does not cover the V band (0.55 micron)")\n')]),
     ('law looked up with the package\'s own interpolator: a single wavelength outside the table gets not-a-number, not zero', [(EX, '            return (-0.4 * np.interp(wav.to(self.wav.unit), self.wav, self.chi, left=0., right=0.)\n                    / np.interp(([0.55] * u.micron).to(self.wav.unit), self.wav, self.chi))\n', '            from ..utils.interpolate import interp1d_fast\n            xp = self.wav.value\n            fp = self.chi.value\n            x = wav.to(self.wav.unit).value\n            x_v = ([0.55] * u.micron).to(self.wav.unit).value\n            chi = interp1d_fast(xp, fp, x, bounds_error=False, fill_value=0.)\n            chi_v = interp1d_fast(xp, fp, x_v)\n            return u.Quantity(-0.4 * chi / chi_v, u.dimensionless_unscaled)\n')]),
     ('extinction state as bare numbers, default units re-attached without conversion', [(EX, "            'wav': self.wav,\n            'chi': self.chi,\n", "            'wav': self.wav.value,\n            'chi': self.chi.value,\n"), (EX, "        self.wav = d['wav']\n        self.chi = d['chi']", "        self.wav = d['wav'] * u.micron\n        self.chi = d['chi'] * u.cm ** 2 / u.g")]),
     ('-0.4 -> 0.4', [(EX, "return (-0.4 * np.interp(", "return (0.4 * np.interp(")]),
@@ -251,6 +292,7 @@ MUST_FIRE = [
     ('setstate cross-wired', [(EX, "        self.wav = d['wav']\n        self.chi = d['chi']", "        self.wav = d['chi']\n        self.chi = d['wav']")]),
 ]
 MUST_SILENT = [
+    ('coverage guard that refuses only tables that do not reach 0.55 micron', [(EX, '        if isinstance(wav, u.Quantity) and wav.unit.is_equivalent(u.m):\n', '        if isinstance(wav, u.Quantity) and wav.unit.is_equivalent(u.m):\n            wav_v = ([0.55] * u.micron).to(self.wav.unit)\n            if wav_v < self.wav[0] or wav_v > self.wav[-1]:\n                raise ValueError("extinction law does not cover the V band (0.55 micron)")\n')]),
     ('law looked up with the package\'s own interpolator, a single wavelength made an array of one first', [(EX, '            return (-0.4 * np.interp(wav.to(self.wav.unit), self.wav, self.chi, left=0., right=0.)\n                    / np.interp(([0.55] * u.micron).to(self.wav.unit), self.wav, self.chi))\n', '            from ..utils.interpolate import interp1d_fast\n            xp = self.wav.value\n            fp = self.chi.value\n            x = np.atleast_1d(wav.to(self.wav.unit).value)\n            x_v = ([0.55] * u.micron).to(self.wav.unit).value\n            chi = interp1d_fast(xp, fp, x, bounds_error=False, fill_value=0.)\n            chi_v = interp1d_fast(xp, fp, x_v)\n            return u.Quantity(-0.4 * chi / chi_v, u.dimensionless_unscaled)\n')]),
     ('extinction state as bare numbers in fixed units, converted when saved', [(EX, "            'wav': self.wav,\n            'chi': self.chi,\n", "            'wav': self.wav.to(u.micron).value,\n            'chi': self.chi.to(u.cm ** 2 / u.g).value,\n"), (EX, "        self.wav = d['wav']\n        self.chi = d['chi']", "        self.wav = d['wav'] * u.micron\n        self.chi = d['chi'] * u.cm ** 2 / u.g")]),
     ('constant folded', [(EX, "return (-0.4 * np.interp(", "return (-2. / 5. * np.interp(")]),
